@@ -89,6 +89,30 @@ def run(shard, ctx):
                     attempt(ctx, c.facade, "blocksize.%s" % name, ("MissingBlocksizeException",), lambda: harness.facade_call(c, s, dict(a)), dev, wit, valid=not invalid)
                     if not invalid and len(dev.calls) != 1:
                         ctx.fail("C17:blocksize.%s.valid_neighbour_not_sent" % name, "valid request sent %d commands" % len(dev.calls), wit)
+        # arguments a wrapper passes on as "not given": no transfer length (None), no block for WRITE SAME (None, NDOB left out):
+        # without a block size the request is refused like any other, with the same error
+        for name in ("Write10", "Write12", "Write16", "WriteSame10", "WriteSame16"):
+            c = S.COMMANDS[name]
+            for i in range(12):
+                a = dict(harness.random_args(c, rng, cap=4096), blocksize=0)
+                if c.xfer == "write":
+                    a["tl"] = None if i % 2 else a["tl"]
+                    if i % 4 == 3:
+                        a["data"] = harness.pattern_bytes(rng.choice([512, 4096, 1000]), i)
+                else:
+                    a["data"] = None
+                    if "ndob" in c.args:
+                        a["ndob"] = 0
+                dev = harness.Recorder(getattr(E, c.sets[0]))
+                s0 = harness.make_facade(dev)
+                kw = harness.call_kwargs(c, a)
+                kw.pop("blocksize", None)
+                if name == "WriteSame16" and i % 2:
+                    kw.pop("ndob", None)  # left out, not given as 0
+                wit = {"cmd": name, "args": a, "ndob_left_out": "ndob" not in kw}
+                ctx.case((name, "facade-none", i), True)
+                ctx.count("not_given_arguments_without_blocksize")
+                attempt(ctx, c.facade, "blocksize.%s" % name, ("MissingBlocksizeException",), lambda: getattr(s0, c.facade)(**kw), dev, wit)
         attached_without_blocksize(ctx, rng, names)
         # ATA: whatever the ATA command and its FEATURES are, sectors without a sector size are refused (all 65536 pairs, both CDB sizes)
         for name in ("ATAPassThrough12", "ATAPassThrough16"):
@@ -306,8 +330,12 @@ def run(shard, ctx):
             nl = rng.choice(lens)
             t = D.strip_private(D.gen_transport_id(rng, "iscsi1", nl))
             mode = i % 3
+            if mode != 1 and rng.random() < 0.3:
+                # ... also a session id that is all zeros (a number that is false, a string that is not)
+                t["iscsi_initiator_session_id"] = rng.choice(["0", "00", "0000", "000000000000", "0x0"])
+                ctx.count("transportid_zero_session_ids")
             if mode == 0:
-                t["tpid_format"] = 0  # session id without the format flag
+                t["tpid_format"] = rng.choice([0, 0, False])  # session id without the format flag
                 klass = "transportid.isid_without_format_flag"
             elif mode == 1:
                 del t["iscsi_initiator_session_id"]  # flag without session id
